@@ -225,6 +225,16 @@ impl NewReno {
 }
 
 impl Control for NewReno {
+    #[cfg(gmquic_verif)]
+    fn verif_state(&self) -> (usize, usize, usize, Option<Instant>) {
+        (
+            self.congestion_window,
+            self.ssthresh,
+            self.bytes_in_flight,
+            self.congestion_recovery_start_time,
+        )
+    }
+
     fn on_packet_sent_cc(&mut self, packet: &SentPacket) {
         self.on_packet_sent_cc(packet.sent_bytes);
     }
